@@ -61,7 +61,7 @@ ASSUMPTIONS = [
     "'simplify=False' = it passes with simplify=True on the diagonal part "
     "(probe limited to 6 s); tags are omitted when undecided",
 ]
-BUDGET_S = {"quick": 80, "thorough": 1100}
+BUDGET_S = {"quick": 60, "thorough": 1000}
 
 KEYS = ["gdown", "gup", "gdet", "Gamma_down", "Gamma_udd", "Riemann_down",
         "Riemann_uddd", "Ricci_down", "RicciS", "Einstein_down"]
@@ -794,7 +794,7 @@ class Checker:
 def case_budget(case, tier):
     if case.get("budget"):
         return case["budget"]
-    return 25.0 if tier == "quick" else 150.0
+    return 20.0 if tier == "quick" else 150.0
 
 
 class Outcome:
@@ -899,6 +899,8 @@ def fails_on_canonical_diagonal(run, name, base, case):
     Decided once per process; guards the 'nondiagonal' tag against cases
     whose own diagonal part is too simple to show the failure."""
     k = (name, base, case["simplify"])
+    if case["diag"] == GD2["diag"]:
+        return False        # the diagonal part *is* the canonical metric
     if k not in _CANON:
         c = dict(case, dim=2, diag=GD2["diag"], off=[], points=GD2["points"])
         c.pop("budget", None)
@@ -916,8 +918,20 @@ def tagged_report(run, name, case, note, tier, simplify_probe):
     if not out.fails:
         return
     nd = is_nondiag(case)
-    probe = run(diag_variant(case)) if nd else None
+    todo = {}
     for base, obs in out.fails.items():
+        # a discriminator of this key/branch that is already known (excluded
+        # by the runner) is not probed again: the failure is counted under it
+        known = [d for d in (base, base + ":nondiagonal",
+                             base + ":simplify=False") if d in note.excluded]
+        if known:
+            note.fail(known[0], obs)
+        else:
+            todo[base] = obs
+    if not todo:
+        return
+    probe = run(diag_variant(case)) if nd else None
+    for base, obs in todo.items():
         tags = []
         if nd:
             if base not in probe.checked:
@@ -1241,14 +1255,17 @@ def subchecks(tier):
                                 case_strategy(s_sizes, True, "order"))
     return [
         Sub("textbook_simplify", case_strategy(s_sizes, True),
-            make_test_textbook(tier), 24 if q else 160,
-            generic=[fixed(G2, True, DIRECT_FIRST),
-                     fixed(G2, True, UDDD_FIRST),
+            make_test_textbook(tier), 16 if q else 160,
+            generic=[fixed(G2, True, ["Ricci_down", "Riemann_down",
+                                      "Riemann_uddd", "RicciS"]),
+                     fixed(G2, True, ["gup", "gdet", "Gamma_udd", "Gamma_down",
+                                      "Riemann_uddd", "Riemann_down",
+                                      "Ricci_down", "Einstein_down"]),
                      fixed(G3S, True, DIRECT_FIRST[:4]),
                      fixed(G3D, True, UDDD_FIRST)],
-            shards=8 if q else 16, shrink_quick=False, max_rounds=3),
+            shards=4 if q else 16, shrink_quick=False, max_rounds=3),
         Sub("textbook_nosimplify", case_strategy(ns_sizes, False),
-            make_test_textbook(tier), 160 if q else 4000,
+            make_test_textbook(tier), 72 if q else 4000,
             generic=[fixed(G3, False, DIRECT_FIRST),
                      fixed(G3, False, UDDD_FIRST),
                      fixed(G4, False, UDDD_FIRST),
@@ -1256,12 +1273,12 @@ def subchecks(tier):
                      fixed(G2, False, UDDD_FIRST)],
             shards=8 if q else 16, shrink_quick=False, max_rounds=6),
         Sub("simplify_indep", case_strategy(s_sizes, True),
-            make_test_pair(tier, "simplify"), 12 if q else 100,
+            make_test_pair(tier, "simplify"), 8 if q else 100,
             generic=[fixed(G2, True, UDDD_FIRST[:7]),
                      fixed(G3D, True, DIRECT_FIRST[:2])],
             shards=4 if q else 16, shrink_quick=False, max_rounds=3),
         Sub("order_indep", order_cases, make_test_pair(tier, "order"),
-            96 if q else 1500,
+            48 if q else 1500,
             generic=[fixed(G3, False, DIRECT_FIRST, order2=UDDD_FIRST),
                      fixed(G2, True, DIRECT_FIRST[:2],
                            order2=UDDD_FIRST[:6])],
